@@ -340,7 +340,7 @@ func c05WriteFault(rc *RC) {
 					c.err = err
 				}
 				c.done = true
-				cancel()
+				simrt.Settle(cancel, "h:cancel")
 			}
 		}))
 	}
@@ -429,7 +429,7 @@ func runC05(rc *RC) {
 
 	perform := func(c *c05Call) {
 		ctx, cancel := context.WithTimeout(e.Ctx, 10*time.Second)
-		defer cancel()
+		defer simrt.Settle(cancel, "h:cancel")
 		big := ch.Chance("workload", 1, 6)
 		s := e.Sess
 		switch c.kind {
